@@ -20,7 +20,7 @@ import (
 func TestVerifC11(t *testing.T) {
 	res := vx.New("a case is one (tree of staticcheck.conf files, -checks/-fail flag lists) combination, enumerated in list-length order; in part A each is loaded and resolved by the real config.Load/Merge/filterAnalyzerNames and compared with the documentation model for every registered check; non-trivial = the resolved set differs from the default set (A), the problem lies outside the -fail set (exit cases), or the run's printed problems are a proper subset of / differ from the default run (B)")
 	defer res.Write()
-	budget := vx.Pick(100*time.Second, 17*time.Minute)
+	budget := vx.Pick(70*time.Second, 15*time.Minute)
 	if s := os.Getenv("C11_BUDGET"); s != "" { // development aid
 		if d, err := time.ParseDuration(s); err == nil {
 			budget = d
